@@ -2,7 +2,8 @@
    weight-robust sandwich of the IPTW marginal structural model saturated in A, cross-fit pooling.
    Definitions only. *)
 From Coq Require Import QArith List Bool.
-From Zepid Require Import Base.QSum Base.QUtil Base.Rows Model.Estimators.
+From Zepid Require Import Base.QSum Base.QUtil Base.QAgg Base.Rows Model.Estimators.
+From Zepid Require Export Base.QAgg.
 Import ListNotations.
 Open Scope Q_scope.
 
@@ -57,13 +58,7 @@ Definition sw_var_lnor (W : row -> Q) (l : list row) : Q :=
   sw_var_mu W true l / ((m1 * (1 - m1)) * (m1 * (1 - m1))) + sw_var_mu W false l / ((m0 * (1 - m0)) * (m0 * (1 - m0))).
 
 (* cross-fit pooling over partitions (zepid.causal.doublyrobust.crossfit.calculate_joint_estimate) *)
-Fixpoint insertq (x : Q) (l : list Q) : list Q :=
-  match l with [] => [x] | y :: ys => if Qle_bool x y then x :: l else y :: insertq x ys end.
-Definition sortq (l : list Q) : list Q := fold_right insertq [] l.
-Definition median (l : list Q) : Q :=
-  let s := sortq l in let n := length s in
-  if Nat.even n then (nth (n / 2 - 1) s 0 + nth (n / 2) s 0) / 2 else nth (n / 2) s 0.
-Definition meanq (l : list Q) : Q := Qsum (fun x => x) l / Qlen l.
+(* insertq / sortq / median / meanq: Base.QAgg *)
 Definition pool (use_median : bool) (pts vars : list Q) : Q * Q :=
   let c := if use_median then median pts else meanq pts in
   let v := map (fun pv => snd pv + (fst pv - c) * (fst pv - c)) (combine pts vars) in
